@@ -193,6 +193,121 @@ Theorem C01_checked_reader_total : forall ls e p, read_srt_lines_c ls e <> Panic
 Proof. exact read_srt_lines_c_no_panic. Qed.
 Print Assumptions C01_checked_reader_total.
 
+(* ---- CORRECTION to the header of this file (second audit, N7): what is compared outside html_simple ----
+   The header says that outside the faithful domain of the markup tokenizer model "the harness compares result classes
+   only".  What it really compares there (harness/core.go, model answers starting with NS) is only whether the call
+   PANICS (model class Panic against a panic of the library); the Ok / Err distinction and the value are not compared.
+   Outside html_simple nothing is claimed about the library beyond "no panic" (C08); inside it, and that is where every
+   hypothesis of this file lives (C01_*_in_faithful_domain), values are compared exactly. *)
+(* ---- the scanner's line limit (second audit, item N3; Proofs/LineBound.v) ----
+   The theorems above are stated on the unbounded line splitter (read_srt data = read_srt_lines (lines data) false; no size
+   bound).  The real reader takes its lines from a bufio.Scanner with the default buffer (subtitles.go newScanner never calls
+   Buffer): a line of 65536 bytes or more makes ReadFromSRT fail with bufio.ErrTooLong.  One cue with a text line of 65536
+   letters satisfies repr_item; the library writes it and cannot read it back, so C01_write_read, C01_read_rendered(_raw),
+   C01_write_read_via_rendering and C01_eol are true of the library only below that size.  The statements that are true of
+   the library carry the line bound.  They are about read_srt_lim max data counts = the reader over the limit-aware scanner
+   of C17 (Kit/ScanLim.v scan_lim: buffer of max bytes, delivery schedule counts; the real value is max_scan_token = 65536),
+   for EVERY max and EVERY schedule:
+     lines_within max ls     every line at least two bytes shorter than the buffer (the bound of C17_readers_within_limit:
+                             enough for LF, CR LF and lone CR);
+     lines_within_lf max ls  every line at least one byte shorter: exact for LF-terminated documents (what the writer emits);
+     line_beyond_lf max ls   some line of max bytes or more.
+   C01_write_read_within_limit        the round trip, bound on the written bytes;
+   C01_write_read_text_within_limit   the round trip, bound on the text lines of the cue list (the other written lines are
+                                      short: byte-order mark + index <= 22 bytes, timing line <= 39 bytes);
+   C01_write_read_exact_limit         the writer's bytes are read back when no written line has max bytes or more and are
+                                      REFUSED (an error, never a shorter cue list) when one has;
+   C01_read_rendered_within_limit, C01_read_rendered_raw_within_limit, C01_eol_within_limit   every rendering, every line end;
+   C01_line_bound_sharp, C01_real_line_bound   one cue with a text line of n letters: read back iff n + 1 <= max; at the real
+                                      constant 65535 letters are read back and 65536 refused, under every schedule, while
+                                      the cue with 65536 letters satisfies the hypotheses of C01_write_read;
+   C01_write_read_needs_line_bound    the same by computation on a buffer of 48 bytes, with the error returned (EIO: the
+                                      scanner's error), and the line-end dependence (47 letters pass with LF, fail with CR LF).
+   Replayed on the library by the harness suite srt.linebound (lines of 65533 .. 65537 bytes). *)
+From Coq Require Import Arith.
+From Astisub Require Import Kit.ScanLim Proofs.ScanLimProofs Proofs.LineBound.
+
+Theorem C01_write_read_within_limit : forall (max : nat) (l : list sitem), (0 < max)%nat ->
+  Forall repr_item l -> l <> [] -> (Z.of_nat (length l) <= max_int64)%Z ->
+  forall data, write_srt l = Ok data -> lines_within max (lines data) ->
+  forall counts, read_srt_lim max data counts = Ok (renumber_truncate l).
+Proof. exact write_read_srt_within. Qed.
+Print Assumptions C01_write_read_within_limit.
+
+Theorem C01_written_lines_within_limit : forall (max : nat) (l : list sitem), (41 <= max)%nat ->
+  Forall time_ok l -> (Z.of_nat (length l) <= max_int64)%Z ->
+  Forall (fun it => lines_within max (map line_str (si_lines it))) l ->
+  lines_within max (render_items true (w_rendering l) 0).
+Proof. exact srt_lines_within. Qed.
+Print Assumptions C01_written_lines_within_limit.
+
+Theorem C01_write_read_text_within_limit : forall (max : nat) (l : list sitem), (41 <= max)%nat ->
+  Forall repr_item l -> l <> [] -> (Z.of_nat (length l) <= max_int64)%Z ->
+  Forall (fun it => lines_within max (map line_str (si_lines it))) l ->
+  exists data, write_srt l = Ok data /\ forall counts, read_srt_lim max data counts = Ok (renumber_truncate l).
+Proof. exact write_read_srt_text_within. Qed.
+Print Assumptions C01_write_read_text_within_limit.
+
+Theorem C01_write_read_exact_limit : forall (max : nat) (l : list sitem), (0 < max)%nat ->
+  Forall repr_item l -> l <> [] -> (Z.of_nat (length l) <= max_int64)%Z ->
+  exists data, write_srt l = Ok data /\
+    (lines_within_lf max (render_items true (w_rendering l) 0) ->
+       forall counts, read_srt_lim max data counts = Ok (renumber_truncate l)) /\
+    (line_beyond_lf max (render_items true (w_rendering l) 0) ->
+       forall counts, exists k, read_srt_lim max data counts = Err k).
+Proof. exact write_read_srt_exact. Qed.
+Print Assumptions C01_write_read_exact_limit.
+
+Theorem C01_read_rendered_within_limit : forall (max : nat) e (b : bool) (l : list (rend * sitem)) (eof : nat),
+  (0 < max)%nat -> eol_ok e ->
+  Forall (fun p => rend_ok (fst p) /\ repr_item (snd p)) l -> Forall (fun p => gap_ok (fst p)) (tl l) ->
+  Forall brkfree (render_items b l eof) -> lines_within max (render_items b l eof) ->
+  forall counts, read_srt_lim max (render_eol e (render_items b l eof)) counts = Ok (map denote_item l).
+Proof. exact read_rendered_srt_within. Qed.
+Print Assumptions C01_read_rendered_within_limit.
+
+Theorem C01_read_rendered_raw_within_limit : forall (max : nat) e (b : bool) (cs : list (rend * rcue)) (eof : nat),
+  (0 < max)%nat -> eol_ok e ->
+  Forall (fun p => rend_ok (fst p) /\ rcue_ok (snd p)) cs -> Forall (fun p => gap_ok (fst p)) (tl cs) ->
+  Forall brkfree (render b cs eof) -> lines_within max (render b cs eof) ->
+  forall counts, read_srt_lim max (render_eol e (render b cs eof)) counts = Ok (map denote_cue cs).
+Proof. exact read_rendered_raw_srt_within. Qed.
+Print Assumptions C01_read_rendered_raw_within_limit.
+
+Theorem C01_eol_within_limit : forall (max : nat) e (ls : list str) counts, (0 < max)%nat -> eol_ok e ->
+  Forall brkfree ls -> lines_within max ls -> read_srt_lim max (render_eol e ls) counts = read_srt_lines ls false.
+Proof. exact read_srt_lim_eol. Qed.
+Print Assumptions C01_eol_within_limit.
+
+(* the bound is needed and sharp: a_cue n = one cue, one unstyled text line of n letters a *)
+Theorem C01_line_bound_sharp : forall (max : nat) (n : N), (30 <= max)%nat -> (0 < n)%N ->
+  exists data, write_srt (a_cue n) = Ok data /\ read_srt data = Ok (renumber_truncate (a_cue n)) /\
+    ((N.to_nat n + 1 <= max)%nat -> forall counts, read_srt_lim max data counts = Ok (renumber_truncate (a_cue n))) /\
+    ((max < N.to_nat n + 1)%nat -> forall counts, exists k, read_srt_lim max data counts = Err k).
+Proof. exact srt_line_bound_sharp. Qed.
+Print Assumptions C01_line_bound_sharp.
+
+Theorem C01_real_line_bound :
+  Forall repr_item (a_cue 65536) /\
+  (exists data, write_srt (a_cue 65535) = Ok data /\
+     forall counts, read_srt_lim max_scan_token data counts = Ok (renumber_truncate (a_cue 65535))) /\
+  (exists data, write_srt (a_cue 65536) = Ok data /\ read_srt data = Ok (renumber_truncate (a_cue 65536)) /\
+     forall counts, exists k, read_srt_lim max_scan_token data counts = Err k).
+Proof. exact srt_real_line_bound. Qed.
+Print Assumptions C01_real_line_bound.
+
+Example C01_write_read_needs_line_bound :
+  forallb repr_itemb (a_cue 48) = true /\
+  read_srt (srt_bytes (a_cue 48)) = Ok (renumber_truncate (a_cue 48)) /\
+  read_srt_lim 48 (srt_bytes (a_cue 48)) [] = Err EIO /\
+  read_srt_lim 48 (srt_bytes (a_cue 48)) [7%nat; 0%nat; 100%nat] = Err EIO /\
+  lines_withinb 48 (lines (srt_bytes (a_cue 46))) = true /\
+  read_srt_lim 48 (srt_bytes (a_cue 46)) [7%nat; 0%nat; 100%nat] = Ok (renumber_truncate (a_cue 46)) /\
+  lines_withinb 48 (lines (srt_bytes (a_cue 47))) = false /\
+  read_srt_lim 48 (srt_bytes (a_cue 47)) [7%nat; 0%nat; 100%nat] = Ok (renumber_truncate (a_cue 47)) /\
+  read_srt_lim 48 (render_eol [CR; LF] (lines (srt_bytes (a_cue 47)))) [7%nat; 0%nat; 100%nat] = Err EIO /\
+  read_srt (render_eol [CR; LF] (lines (srt_bytes (a_cue 47)))) = Ok (renumber_truncate (a_cue 47)).
+Proof. exact write_read_needs_line_bound. Qed.
 (* ---- the model's literals are the constants of the Go source (Proofs/ConstTie.v, Gen/Consts.v regenerated from the
    repository on every run by tools/genconsts): the SubRip separators, keywords and names the model spells out equal the
    NAMED package-level constants, struct tags and bidirectional-map entries of the source (literals inside function bodies and
